@@ -96,6 +96,8 @@ MovesJoinZ(h, kn) ==
         jc == JCur(h)
         pre(t, i) == LET a == ColOf(t, "a") b == ColOf(t, "b") z == ColOf(t, "z") IN
                      (IF NameFree(t, "z") THEN MapS(b, LAMBDA c : MMutate(i, <<KV("z", Fn2("fill_null", Col(c), LitI(0)))>>))
+                                               \* not null for null inputs below an operator that has a literal operand, too
+                                               \o MapS(b, LAMBDA c : MMutate(i, <<KV("z", Fn2("add", Fn2("fill_null", Col(c), LitI(0)), LitI(1)))>>))
                                                \o MapS(b, LAMBDA c : MMutate(i, <<KV("z", Fn2("add", Col(c), LitI(1)))>>))
                                                \o MapS(b, LAMBDA c : MMutate(i, <<KV("z", Case1D(Fn2("gt", Col(c), LitI(0)), LitI(1), LitI(0)))>>)) ELSE <<>>)
                      \o (IF NameFree(t, "y") THEN MapS(z, LAMBDA c : MMutate(i, <<KV("y", Fn2("add", CN("z"), LitI(1)))>>)) ELSE <<>>)
@@ -367,7 +369,11 @@ MovesCollectG(h, kn) ==
         ELSE (IF gv # <<>> /\ NameFree(t, "k") THEN <<MRename(i, <<[c |-> Col(gv[1]), n |-> "k"]>>),
                                                       MRename(i, <<[c |-> Col(gv[1]), n |-> t.nm[iv[1]]], [c |-> Col(iv[1]), n |-> t.nm[gv[1]]]>>)>> ELSE <<>>)
              \o <<MCollect(i, TRUE), MCollect(i, FALSE)>>
-             \o <<MMutate(i, <<KV("w", Agg("sum", Col(iv[1])))>>), MSummarize(i, <<KV("s", Agg("sum", Col(iv[1])))>>)>>
+             \* a hidden grouping column and a plain alias(): the re-rooted table is still grouped by (the copy of) that column
+             \o (IF gv # <<>> /\ Len(t.vis) >= 3 THEN <<MDrop(i, <<Col(gv[1])>>)>> ELSE <<>>)
+             \o (IF gv = <<>> THEN <<MAlias(i, "s", FALSE)>> ELSE <<>>)
+             \* (summarize by a HIDDEN grouping column has no documented meaning - known finding F14 - so only the window form is used there)
+             \o <<MMutate(i, <<KV("w", Agg("sum", Col(iv[1])))>>)>> \o (IF \A q \in DOMAIN t.part : t.part[q] \in VisSet(t) THEN <<MSummarize(i, <<KV("s", Agg("sum", Col(iv[1])))>>)>> ELSE <<>>)
 
 SrcHeapsOne == [k \in DOMAIN SrcPairs |-> <<SrcTables[SrcPairs[k][1]]>>]
 
